@@ -26,7 +26,7 @@ BOUNDS = {
              'L<=2 under every table reached from the default by one \\catcode(ch,code) with ch in a 7-character alphabet and code 0..15 symbolic; '
              'lexer-state prefixes x L<=2; a category code (one of 7 characters, code 0..15 symbolic) reassigned between the first and the second token request of 7 prefixes x L<=1',
     'thorough': 'L<=4 default; L<=4 @-letter, verbatim; L<=3 with one reassignment (7-char alphabet x 16 codes), L<=2 with the 13-char alphabet; two reassignments: '
-                '7-char alphabet at L<=1, one character twice at L<=2; all 27 lexer-state prefixes x L<=3; one \\let alias table; mid-stream reassignment after the first or second token of 12 prefixes x L<=1 and after the first token of 4 prefixes x L<=2',
+                '7-char alphabet at L<=1, one character twice at L<=2; 13 lexer-state prefixes x L<=3 and the 14 comment-terminated ones x L<=2; one \\let alias table; mid-stream reassignment after the first or second token of 12 prefixes x L<=1 and after the first token of 4 prefixes x L<=2',
 }
 ASSUMPTIONS = ['the StringIO source is replaced by a 10-line file-like stub serving one character per read(1)',
                'Token.__eq__/__ne__/__lt__/__str__ are re-stated in the SymTok proxy (validated against the real classes at the start of every run)',
@@ -321,8 +321,9 @@ def jobs(tier, seed):
         J.append(dict(harness='h_lex', params=dict(L=2, re_alpha=ALPHA13, nre=1), split=34, label='1 reassignment (13-char alphabet) L=2'))
         J.append(dict(harness='h_lex', params=dict(L=1, re_alpha=ALPHA7, nre=2), split=52, label='2 reassignments (7-char alphabet) L=1'))
         J.append(dict(harness='h_lex', params=dict(L=2, re_alpha=['a'], nre=2), split=52, label='same character reassigned twice L=2'))
-        for p in STATE_PREFIXES:
-            J.append(dict(harness='h_lex', params=dict(L=3, prefix=p), split=14, label='state-prefix %r L=3' % p))
+        for i, p in enumerate(STATE_PREFIXES):
+            L = 3 if i < 13 else 2               # the 14 "(par) token %newline" prefixes keep the quick bound
+            J.append(dict(harness='h_lex', params=dict(L=L, prefix=p), split=14, label='state-prefix %r L=%d' % (p, L)))
         J.append(dict(harness='h_lex', params=dict(L=3, prefix='\\ab', lets=True), label='let alias L=3'))
         J.append(dict(harness='h_lex', params=dict(L=3, lets=True), label='let alias free L=3'))
         for p in MID_PREFIXES:
